@@ -128,6 +128,12 @@ def run(chk, prog, tier):
                 continue
             val = strip(kids(up)[1], casts=True)
             idx_var = ref_name(val)
+            # pointer scan: the index is `cursor - TABLE` with the cursor a forward-moving pointer into that const table
+            if not idx_var and val.get("kind") == "BinaryOperator" and val.get("opcode") == "-":
+                lp_, rp_ = strip(kids(val)[0], casts=True), strip(kids(val)[1], casts=True)
+                if lp_.get("kind") == "DeclRefExpr" and "*" in qtype(lp_) and rp_.get("kind") == "DeclRefExpr" and \
+                        ref_name(rp_) in prog.globals and "const" in qtype(rp_):
+                    idx_var = ref_name(lp_)
             loops = [p for p in parents if p.get("kind") in ("WhileStmt", "ForStmt", "DoStmt")]
             ok_val = bool(idx_var) and bool(loops) and _is_forward_induction(loops[-1], idx_var) and _writes_only_by_increment(f, idx_var)
             chk.require(ok_val, "SH2", key + "/value", loc_str(up),
